@@ -166,6 +166,7 @@ void hb_thread_create(Thread* parent, Thread* child);
 void hb_thread_join(Thread* joiner, Thread* target);
 void hb_edge(Thread* from, Thread* to);
 void heap_child_init();
+void check_sync_object(uintptr_t addr, size_t n);  // uaf/oob verdict if a mutex/condvar/futex word lies in dead heap memory
 void mem_reset_run();
 void sync_reset_run();
 void core_reset_run();
